@@ -11,6 +11,8 @@ def run(ctx):
     common.replay_layer(ctx, "MC_Walk.tla", "MC_Walk_select.cfg", "walk-replay", "walksel", args={"binary_every": 400 if q else 40, "stride": 2 if q else 1}, workers=10, heap="3g", env_extra=env)
     common.replay_layer(ctx, "MC_Walk.tla", "MC_Walk_positions.cfg", "walk-replay", "walkpos", args={"binary_every": 900 if q else 60, "stride": 5 if q else 1, "dst": 1}, workers=10, heap="3g", env_extra=env)
     common.replay_layer(ctx, "MC_Walk.tla", "MC_Walk_layouts.cfg", "walk-layouts", "walklay", args={"stride": 3 if q else 1}, workers=10, heap="3g", env_extra=env)
+    if ctx.tier == "thorough":
+        vlib.vacuity_check(ctx, "MC_Walk.tla", "MC_Walk_positions.cfg", expect_zero=())
     return vlib.finish(
         ctx, "model_checking",
         rule="Walk.tla (instants in minutes, zone offsets, Lineage override, keywords against --today, summary's local-day interval): "
